@@ -22,6 +22,11 @@ NOT_DECIDED = ("that the granted rate is numerically the largest feasible one wi
                "alternative value); behaviour under ties of the priority key")
 
 
+def xp(fl, node, text):
+    """canonical form of the source text `text` expanded at `node` (reference patterns are expanded like the code they are compared with)"""
+    return canon(fl.expand(ast.parse(text, mode="eval").body, node))
+
+
 def sort_call(fl, f):
     rets = [n for n in fl.cfg.nodes if n.kind == "return"]
     if len(rets) != 1:
@@ -230,10 +235,11 @@ def rule_round_robin(ck):
         raise AnalysisError("round_robin: expected one while loop")
     w = wh[0]
     c = cmp_norm(w.expr)
-    ok = (c and c[1] == "<" and canon(c[0]) == "0" and canon(c[2]) == "len(queue)") or canon(w.expr) == "queue"
+    ok = (c and c[1] == "<" and canon(c[0]) == "0" and canon(c[2]) == "len(queue)") or canon(w.expr) == "queue" or \
+        (c and c[1] == "!=" and {canon(c[0]), canon(c[2])} == {"0", "len(queue)"})
     ck.require(bool(ok), "C08.R4", f, w.expr, ok="runs until the queue is empty", bad="the round-robin loop does not run until the queue is empty", sink="rr:while")
-    body = cfg.loop_body_nodes(w)
-    esc = [n for n in cfg.loop_region(w) if n.kind in ("break", "return")]
+    body = cfg.loop_region(w)
+    esc = [n for n in body if n.kind in ("break", "return")]
     ck.require(not esc, "C08.R4", f, esc[0].stmt if esc else w.expr, ok="only an empty queue ends the loop", bad=f"`{src(esc[0].stmt, 40) if esc else ''}` ends the whole round robin when one session is blocked: "
                f"the other sessions stop being raised", sink="rr:loop-escape")
     pops = [(n, c_) for n, c_ in calls_in(fl) if n in body and call_name(c_) in ("popleft", "pop") and dotted(c_.func.value) == "queue"]
@@ -246,25 +252,40 @@ def rule_round_robin(ck):
     incs = [n for n in body if n.kind == "stmt" and isinstance(n.stmt, (ast.AugAssign, ast.Assign)) and
             any(isinstance(t, ast.Subscript) and dotted(t.value) == "rate_idx" for t in (n.stmt.targets if isinstance(n.stmt, ast.Assign) else [n.stmt.target]))]
     ck.require(len(incs) == 1, "C08.R4", f, "rate_idx[i] += 1", bad=f"{len(incs)} updates of the level index", sink="rr:inc-count")
-    checks = [n for n in body if n.kind == "test" and is_feasible_call(n.expr)]
+
+    def feas_fact(n):
+        return [t_ for a_, t_ in facts_at(fl, n) if is_feasible_call(a_) and any(
+            tn in body and any(x is a_ for x in ast.walk(tn.expr)) for tn, _ in cfg.edges_dominating(n) if tn.kind == "test")]
     for n in incs:
         s = n.stmt
-        ok = isinstance(s, ast.AugAssign) and isinstance(s.op, ast.Add) and canon(s.value) == "1" and canon(s.target.slice) == "i"
+        tgt = s.target if isinstance(s, ast.AugAssign) else s.targets[0]
+        if isinstance(s, ast.AugAssign):
+            step = linear(s.value, norm=canon) if isinstance(s.op, ast.Add) else None
+        else:
+            step = linear(fl.expand(s.value, n), norm=canon) - linear(fl.expand(tgt, n), norm=canon)
+        ok = step is not None and step == Lin({}, 1) and canon(tgt.slice) == "i"
         ck.require(ok, "C08.R4", f, s, ok="advances by exactly one level", bad=f"`{src(s)}`: the level index must advance by exactly 1", sink="rr:inc")
-        fe = [lab for t, lab in cfg.edges_dominating(n) if t in checks]
-        ck.require(fe == [True], "C08.R4", f, s, ok="only on the feasible edge", bad="the level index advances without the next level having been found feasible", sink="rr:inc-edge")
+        ck.require(feas_fact(n) == [True], "C08.R4", f, s, ok="only on the feasible edge", bad="the level index advances without the next level having been found feasible", sink="rr:inc-edge")
         if apps:
             a = apps[0][0]
-            same = [lab for t, lab in cfg.edges_dominating(a) if t in checks] == [True] and (cfg.dominates(n, a) or cfg.dominates(a, n))
+            same = feas_fact(a) == [True] and (cfg.dominates(n, a) or cfg.dominates(a, n))
             ck.require(same, "C08.R4", f, apps[0][1], ok="re-queued exactly when it advanced", bad="the session is re-queued on a path where it did not advance (or dropped although it advanced)", sink="rr:append-iff")
-    # a session leaves the queue only at its last level or when blocked
-    gates = [t for t in body if t.kind == "test" and not is_feasible_call(t.expr)]
+    # a session leaves the queue only at its last level or when the next level is infeasible: the only tests in the loop are the
+    # feasibility check and the `a next level exists` gate, and the gate guards the tentative raise
+    tests = [t for t in body if t.kind == "test"]
+    gates = [t for t in tests if not any(is_feasible_call(x) for x in ast.walk(t.expr))]
+    tents = [n for n in body if n.kind == "stmt" and isinstance(n.stmt, ast.Assign) and isinstance(n.stmt.targets[0], ast.Subscript) and dotted(n.stmt.targets[0].value) == "schedule"
+             and canon(fl.expand(n.stmt.value, n)) == xp(fl, n, "allowable_pilots[i][rate_idx[i] + 1]")]
     good = False
-    for t in gates:
-        c = cmp_norm(t.expr)
-        if c and c[1] == "<" and canon(c[0]) == "rate_idx[i]" and linear(c[2], norm=canon) == Lin({"len(allowable_pilots[i])": 1}, -1):
-            good = all(cfg.dominates(t, x) for x in checks)
-    ck.require(good and len(gates) == 1, "C08.R4", f, gates[0].expr if gates else "if rate_idx[i] < len(levels) - 1", ok="dropped only at its last level or when the next level is infeasible",
+    for tn in tents:
+        want = linear(fl.expand(ast.parse("len(allowable_pilots[i]) - rate_idx[i] - 1", mode="eval").body, tn), norm=canon)   # len - idx - 1 > 0  <=>  idx + 1 < len
+        for a_, t_ in facts_at(fl, tn):
+            c = cmp_norm(fl.expand(a_, tn), t_)
+            if c and c[1] == "<" and linear(c[2], norm=canon) - linear(c[0], norm=canon) == want:
+                good = True
+            if c and c[1] == "<=" and linear(c[2], norm=canon) - linear(c[0], norm=canon) == want + Lin({}, 1):
+                good = True
+    ck.require(good and len(gates) == 1 and bool(tents), "C08.R4", f, gates[0].expr if gates else "if rate_idx[i] < len(levels) - 1", ok="dropped only at its last level or when the next level is infeasible",
                bad="a session can leave the round robin for another reason than `last level reached` / `next level infeasible`", sink="rr:leave")
     i_defs = [n for n in body if n.kind == "stmt" and isinstance(n.stmt, ast.Assign) and any(dotted(t) == "i" for t in n.stmt.targets)]
     ck.require(len(i_defs) == 1 and canon(fl.expand(i_defs[0].stmt.value, i_defs[0])) == "infrastructure.get_station_index(session.station_id)", "C08.R4", f,
